@@ -105,10 +105,15 @@ fn build_images(hooks: &FHooks, args: &Args, scratch: &simcore::Scratch) -> Vec<
             crate::contents_readable(logical.packaging),
         );
         if !mism.is_empty() {
-            simcore::harness_error(&format!(
-                "image {name}: pristine dump differs from the model: {}",
-                mism[0]
-            ));
+            // fault-free configuration: what the creator wrote does not read back as the model says
+            // (or does not verify). The campaign cannot continue on this image; reported as a
+            // violation of the check's property in its fault-free part.
+            println!(
+                "{}",
+                json!({"t":"faultfree","image":name,"desc":gen::describe(&logical),"mismatch":mism.iter().take(3).collect::<Vec<_>>()})
+            );
+            let _ = std::fs::remove_dir_all(&dir);
+            continue;
         }
         let files: Vec<String> = built
             .files
@@ -659,11 +664,29 @@ pub fn child_main(args: &Args) -> ! {
         // C04: handles opened on the pristine files, checked once, and asked again after the bytes
         // changed underneath (same inode): an altered byte must not be answered from a stale buffer
         let mut held: Vec<(String, jubako::reader::ContainerPack)> = vec![];
+        let mut held_packs: Vec<(String, Box<dyn jubako::Pack>)> = vec![];
         if mode == Mode::C04 {
             write_files(&case_dir, &names, &pristine_bytes);
             for &fi in &fault.files() {
                 if let Ok(cp) = jubako::tools::open_pack(case_dir.join(&names[fi])) {
                     let _ = cp.check();
+                    // the pack objects themselves too (they cache their check info)
+                    for (si, span) in spans[fi].iter().enumerate() {
+                        if span.kind == b'C' {
+                            continue;
+                        }
+                        let uuid = uuid::Uuid::from_bytes(span.uuid);
+                        let Some(reader) = cp.get_pack_reader(&uuid) else { continue };
+                        let pack: Option<Box<dyn jubako::Pack>> = match span.kind {
+                            b'm' => jubako::reader::ManifestPack::new(reader).ok().map(|p| Box::new(p) as _),
+                            b'd' => jubako::reader::DirectoryPack::new(reader).ok().map(|p| Box::new(p) as _),
+                            _ => jubako::reader::ContentPack::new(reader).ok().map(|p| Box::new(p) as _),
+                        };
+                        if let Some(p) = pack {
+                            let _ = p.check();
+                            held_packs.push((format!("{}#{}", names[fi], si), p));
+                        }
+                    }
                     held.push((names[fi].clone(), cp));
                 }
             }
@@ -675,6 +698,9 @@ pub fn child_main(args: &Args) -> ! {
                 let mut stale = serde_json::Map::new();
                 for (n, cp) in &held {
                     stale.insert(n.clone(), json!(check_str(cp.check())));
+                }
+                for (n, p) in &held_packs {
+                    stale.insert(format!("pack {n}"), json!(check_str(p.check())));
                 }
                 obs["held_handles"] = Value::Object(stale);
                 json!({"fired": fired, "obs": obs})
@@ -902,9 +928,16 @@ fn c04_violation(rec: &Value, exempt: bool) -> Option<String> {
             trues.push("ContainerPack::check(file)".to_string());
         }
     }
-    for (_k, v) in obs["held_handles"].as_object().into_iter().flatten() {
-        if v == "true" {
-            trues.push("ContainerPack::check(handle opened before the alteration)".to_string());
+    for (k, v) in obs["held_handles"].as_object().into_iter().flatten() {
+        if v != "true" {
+            continue;
+        }
+        match k.strip_prefix("pack ") {
+            None => trues.push("ContainerPack::check(handle opened before the alteration)".to_string()),
+            Some(p) if rec["damaged_pack"].as_str() == Some(p) => {
+                trues.push("Pack::check(pack object opened before the alteration)".to_string())
+            }
+            _ => {}
         }
     }
     // only the pack that contains the damage is required to fail its own check
@@ -953,6 +986,7 @@ pub fn parent_main(args: &Args, mode: Mode) -> ! {
     let mut known_hits: BTreeMap<String, (u64, String)> = BTreeMap::new();
     let mut images_seen: BTreeMap<String, Value> = BTreeMap::new();
     let mut outcome_counts: BTreeMap<String, u64> = BTreeMap::new();
+    let mut faultfree_seen: std::collections::BTreeSet<String> = std::collections::BTreeSet::new();
     let mut exempt_counted = 0u64;
     let mut digests: Vec<String> = vec![];
     let mut deferred = 0u64;
@@ -991,7 +1025,19 @@ pub fn parent_main(args: &Args, mode: Mode) -> ! {
                 let Ok(v) = serde_json::from_str::<Value>(&line) else {
                     continue;
                 };
-                if v["t"] == "image" {
+                if v["t"] == "faultfree" {
+                    let img = v["image"].as_str().unwrap_or("").to_string();
+                    if faultfree_seen.insert(img.clone()) {
+                        let first = v["mismatch"][0].as_str().unwrap_or("").to_string();
+                        let leaf: String = first.split(':').next().unwrap_or("").chars().map(|c| if c.is_ascii_digit() { 'N' } else { c }).collect();
+                        violations.push(Violation {
+                            signature: format!("{id}|fault-free|{leaf}"),
+                            image: img,
+                            fault: "none".into(),
+                            detail: v.clone(),
+                        });
+                    }
+                } else if v["t"] == "image" {
                     images_seen.entry(v["image"].as_str().unwrap().to_string()).or_insert(v);
                 } else if v["t"] == "case" {
                     recs.push(v);
